@@ -23,6 +23,45 @@ REDUCERS = {"min", "max", "sum", "mean", "std", "any", "all", "prod", "var", "ar
 IDEMPOTENT_UNDER = {"min": {"unique", "sort"}, "max": {"unique", "sort"}, "any": {"unique"}, "all": {"unique"}}
 
 
+def _is_boolean_expr(e):
+    return isinstance(e, tuple) and e and (e[0] in ('cmp', 'and', 'or', 'not', 'band', 'bor') or
+                                           (e[0] == 'call' and e[1] in ('isnan', 'isfinite', 'isinf', '.notnull', '.isnull', '.notna', '.isna', 'any', 'all', 'isclose', 'in')))
+
+
+def _is_row_selector(i):
+    return isinstance(i, tuple) and i and ((i[0] == 'call' and i[1] == 'nz') or _is_boolean_expr(i))
+
+
+def _is_fresh_selection(e):
+    """x[mask] / x[nz(..)] / x[mask, k]: advanced indexing returns a new array, a further .copy() changes nothing"""
+    if not (isinstance(e, tuple) and e and e[0] == 'call' and e[1] == 'getitem' and len(e[2]) == 2):
+        return False
+    i = e[2][1]
+    return _is_row_selector(i) or (i[0] == 'tuple' and any(_is_row_selector(x) for x in i[1]))
+
+
+def _canon_index(idx):
+    """positions selected by an index: np.flatnonzero(m), np.nonzero(m), np.where(m)[0] and m.astype(bool) all select where m is non-zero;
+    for an m that is boolean by construction that is m itself, otherwise the canonical form is nz(m)"""
+    if not isinstance(idx, tuple) or not idx:
+        return idx
+    if idx[0] == 'tuple':
+        return ('tuple', tuple(_canon_index(x) for x in idx[1]))
+    m = None
+    if idx[0] == 'call' and idx[1] in ('flatnonzero', 'nonzero') and len(idx[2]) == 1:
+        m = idx[2][0]
+    elif idx[0] == 'call' and idx[1] == 'getitem' and len(idx[2]) == 2 and idx[2][1] == ('num', 0) and isinstance(idx[2][0], tuple) and \
+            idx[2][0][0] == 'call' and idx[2][0][1] in ('where', 'nonzero') and len(idx[2][0][2]) == 1:
+        m = idx[2][0][2][0]
+    elif idx[0] == 'call' and idx[1] == 'astype' and len(idx[2]) == 2 and idx[2][1] in (('sym', 'bool'), ('sym', 'np.bool_'), ('sym', "'bool'")):
+        m = idx[2][0]
+    if m is None:
+        return idx
+    while isinstance(m, tuple) and m[0] == 'call' and m[1] == 'astype' and len(m[2]) == 2 and m[2][1] in (('sym', 'bool'), ('sym', 'np.bool_'), ('sym', "'bool'")):
+        m = m[2][0]
+    return m if _is_boolean_expr(m) else ('call', 'nz', (m,))
+
+
 def _kws(call, builder, env, skip=()):
     out = []
     for k in call.keywords:
@@ -177,10 +216,14 @@ class PB(ExprBuilder):
             return base[1][sl.value]
         if isinstance(base, tuple) and base[0] == 'call' and base[1] == 'attr:shape' and isinstance(sl, ast.Constant):
             return ('call', 'shape', (base[2][0], num(sl.value)))
-        idx = self._index(sl, env)
+        idx = _canon_index(self._index(sl, env))
         # x[m, :] = x[m]
         while idx[0] == 'tuple' and len(idx[1]) > 1 and idx[1][-1] == ('call', 'slice', (('sym', 'None'),) * 3):
             idx = ('tuple', idx[1][:-1]) if len(idx[1]) > 2 else idx[1][0]
+        # x[I][:, k] = x[I, k] for a row selector I
+        if isinstance(base, tuple) and base[0] == 'call' and base[1] == 'getitem' and len(base[2]) == 2 and _is_row_selector(base[2][1]) and \
+                idx[0] == 'tuple' and len(idx[1]) == 2 and idx[1][0] == ('call', 'slice', (('sym', 'None'),) * 3):
+            return ('call', 'getitem', (base[2][0], ('tuple', (base[2][1], idx[1][1]))))
         # [f(k) for k in range(n)][j] with j itself running over range(n): the element is f(j)
         if isinstance(base, tuple) and base[0] == 'call' and base[1] == 'map' and len(base[2]) == 2 and idx == ('call', 'elem', (base[2][1],)) and \
                 base[2][1][0] == 'call' and base[2][1][1] in ('py.range', 'arange') and len(base[2][1][2]) == 1:
@@ -227,7 +270,7 @@ class PB(ExprBuilder):
             if m == "astype" and args:
                 return self._with_dtype(recv, args[0])
             if m == "copy" and not args:
-                return ('call', 'copy', (recv,))
+                return recv if _is_fresh_selection(recv) else ('call', 'copy', (recv,))
             if m in ("flatten", "ravel", "squeeze") and not args:
                 return ('call', m, (recv,))
             if m == "reshape":
@@ -269,6 +312,12 @@ class PB(ExprBuilder):
             return ('pow', args[0], args[1])
         if fn == "count_nonzero" and args:
             fn = "sum"
+        if fn == "take" and len(args) == 2 and (not kw or kw.get("axis") == num(0)):
+            return ('call', 'getitem', (args[0], _canon_index(args[1])))
+        if fn == "where" and len(args) == 3 and args[1] == ('sym', 'True') and args[2] == ('sym', 'False'):
+            return args[0]
+        if fn == "compress" and len(args) == 2 and not kw:
+            return ('call', 'getitem', (args[1], _canon_index(args[0])))
         if fn in REDUCERS and len(args) == 2 and "axis" not in kw:
             kw["axis"] = args[1]
             args = args[:1]
